@@ -1,3 +1,5 @@
+mod arena;
+mod enc_arm;
 mod enc_x86;
 mod rng;
 mod util;
@@ -15,6 +17,7 @@ fn main() {
     let mut out = BufWriter::new(stdout.lock());
     match argv[1].as_str() {
         "enc-x86" => enc_x86::run(&a, &mut out),
+        "enc-arm" => enc_arm::run(&a, &mut out),
         x => {
             eprintln!("unknown command {x}");
             std::process::exit(2);
